@@ -1,29 +1,43 @@
 """C09 - every file parser is total: arbitrary bytes are rejected cleanly or loaded whole.
 
 Two halves:
-* network data (.s1p-.s4p, .ts, .npd): checks/c09_data.py (agent datafiles) - mutation/fuzz harness under
-  ASan/UBSan/LSan (exploration only: the byte-level Coq models planned in DESIGN.md were not built);
+* network data (.s1p-.s4p, .ts, .npd): coq/Properties_C09.v (the byte-level models of the Touchstone tokenizer and
+  parser and of the NPD scanner and loader are total: final token, text buffer never overflows, Ok or a classified
+  error, never the model's internal-error class) and checks/c09_data.py: the mutation / fuzz harness under
+  ASan/UBSan/LSan, and the ties of the extracted models to the C code on the same inputs (checks/tstone_ties.py);
 * calibration files and YAML property import (.vnacal, vnaproperty_import_yaml_*): module
   checks/c09_cal.py (agent calfile), theorems in coq/Properties_C09cal.v.
 """
 import c09_data
+import tstone_ties
 
 
 def run(ctx):
-    # network-data half: no theorem of this half is finished (the byte-level tokenizer / scanner models of
-    # DESIGN.md C09 were not built), so it is exploration: mutation + sanitizer evidence only
-    ctx.level = "exploration"
+    ctx.level = "proof"
     ctx.trusted_base = [
-        "network-data half: no Coq model; totality, error classes and memory safety of the Touchstone / NPD loaders are "
-        "supported only by the mutation harness (checks/c09_data.py) under ASan/UBSan/LSan with the allocation interposer "
-        "harness/allocwrap.c and a 5 s watchdog per library call",
+        "network-data half: Coq 8.16.1 kernel, no axioms (Print Assumptions: Closed under the global context for every "
+        "theorem of Properties_C09.v)",
+        "network-data half: hand-written models coq/Files/TsTok.v (next_char / next_token / add_char / strtol / strtod on a word), "
+        "coq/Files/TsParse.v (_vnadata_load_touchstone, load_touchstone1) and coq/Files/NpdLoad.v (scan_line, _vnadata_load_npd, "
+        "parse_format), extracted to OCaml (ocaml/Extract_tstone.v, glue ocaml/drv_tstone.ml) and compared with the compiled C "
+        "code on every input of the run: harness/tstone_tok.c (#includes the two loader sources to reach the static scanners), "
+        "harness/datafiles_harness.c (vnadata_fload); lib/tstone.py does the comparison (exact where the C code does no "
+        "arithmetic, else 1e-12 / 1e-11 relative)",
+        "network-data half: memory safety other than the scanner's text buffer, leaks, the destination object after a failure and "
+        "save/re-load of a loaded object are not modelled: mutation harness checks/c09_data.py under ASan/UBSan/LSan with the "
+        "allocation interposer harness/allocwrap.c and a 5 s watchdog per library call",
         "gcc, ASan/UBSan/LSan",
     ]
     ctx.assumptions = ["inputs declaring more than 40 ports or 5000 frequencies are not executed (allocation size), "
-                       "except the directed overflow cases"]
+                       "except the directed overflow cases",
+                       "allocation failure (ENOMEM) inside the network-data loaders is not modelled (C12 covers allocation faults)"]
     ctx.rule = ("one evaluation = one input file loaded into a fresh and into a used object, dumped, re-saved and re-loaded; "
                 "distinct non-trivial = inputs for which every clause held")
+    ok, res = ctx.coq_obligations(tstone_ties.COQ_FILES_C09)
     inputs = c09_data.run(ctx)
+    if not ok:
+        ctx.unproved("C09 (network data)", "Coq development of C09 does not build: " + getattr(ctx, "_last_coq_log", "")[-400:],
+                     "%d mutated / truncated / random / directed inputs through vnadata_fload and the extracted models" % len(inputs))
     try:
         import c09_cal
     except ImportError:
